@@ -19,25 +19,31 @@ only where the rate law reads a dissolved amount (family approach_c, library rat
 that the very same run reports (the closed form presupposes an exactly closed balance; closure is C02's clause and
 is asserted separately here with C02's tolerance).
 
-Probe on the unchanged tree (grids of 6 000 + 3 400 + 1 600 runs and random searches of 15 000 runs; first order /
-approach / chain, tol 1e-6..1e-12, k*T 1e-3..20, m0 1e-3..1): largest global error / tol
+Probes (grids of 6 000 + 3 400 + 1 600 runs and random searches of 50 000 runs; first order / approach / chain,
+tol 1e-6..1e-12, k*T 1e-3..20, m0 1e-3..1): largest global error / tol
   Runge-Kutta 1/2/3/6, any -step_divide, <= 20 steps       <= 0.4 when tol is small against the amount reacting per step;
      with the largest admitted tol (rates of the stages agree within tol -> the -runge_kutta 1/2/3 early exits are taken)
      about 1-2 tol per integration: chained 1-5: 9, 6-12: 19, 13-20: 34, 21-40: 47, 41-70: 101, > 70: 110
-  CVODE order 5, no restart, n chained integrations          n=1: 44, n=2: 47, n=4: 68, n=8: 50+, n=20: 167
+  CVODE order 5, tol/m0 = 1e-12, n chained integrations     n=1: 44, n=2: 47, n=4: 68, n=8: 50+, n=20: 167
+  CVODE order 5, n <= 2, tol/m0 >= 1e-10                     27.5 (-cvode_steps >= 5000, no restart)
   CVODE order 4 / 3 / 2 / 1 (single integration)             69 / 390 / 3 000 / 33 000  (error ~ tol^(q/(q+1)))
-  CVODE with -cvode_steps <= 50 (restart path)               up to 1.5e10 (0.2 * m0), silently; none seen at >= 70
-=> two known findings (see replays/C12/known): K1 the CVODE restart path resumes from a rejected trial solution;
-K2 the global error is not bounded by 100*tol: with CVODE for -cvode_order <= 4 or for many chained integrations (and, with the
--runge_kutta 1/2/3 early exits, beyond about 40 chained integrations as they arise from transport sub-mixes)
-(20 incremental steps with the default order: 167*tol) and grows like tol^(-1/(q+1)) as the tolerance is tightened (order 5,
-one integration: 7 at tol/m0 = 1e-6, 21 at 1e-10, 44 at 1e-12).  The accuracy clauses are asserted for CVODE only with the default
-order 5, no restart, at most ACC_MAX_CHAINED = 2 chained integrations and tol >= RK_MAX_CHAINED = 20          # Runge-Kutta: accuracy clauses asserted up to this many chained integrations (DESIGN: step lists <= 20)
-CVODE_MIN_REL_TOL = 1e-10 of the largest amount,
-where the largest ratio seen in 9 000 random runs is 27.5 (two such ways may differ by twice that: a factor 2 of head room on
-the path-independence clause).  All trigger classes are excluded BY CONSTRUCTION from the accuracy clauses (exact solution, path independence) and
-counted (`excluded_known:*`); ways in those classes are still run and checked for every clause that does not
-involve the tolerance (non-negative amounts, solute balance, KIN_DELTA, time bookkeeping).
+  CVODE order 5, n <= 2, tol/m0 >= 1e-10, by -cvode_steps (tree with the restart fix, /repo 7ef03c07):
+     10: 2 739, 20: 338, 22: 227, 24: 168, 26: 92, 28: 52, 30: 30, 32-1000: 19-32   (every restart begins again at order 1)
+Findings:
+ K1 (FIXED in /repo 7ef03c07) the CVODE restart path resumed from a rejected trial solution (cvode.cpp CVStep recorded the work
+    vector y instead of zn[0]): with -cvode_steps <= 50 errors up to 0.2*m0, silently.  Regression replay
+    replays/C12/fixed-cvode-restart-rejected-trial.json.
+ K2 (KNOWN, replays/C12/known) the global error is not bounded by 100*tol, because tol only bounds the local error of an internal
+    interval: CVODE with -cvode_order <= 4; CVODE with more than a few chained integrations (20 incremental steps with the default
+    order: 167*tol); CVODE at very tight relative tolerance (order 5, one integration: 7 at tol/m0 = 1e-6, 21 at 1e-10, 44 at 1e-12,
+    i.e. ~ tol^(-1/6)); CVODE with -cvode_steps < 30 (restarts at order 1); Runge-Kutta 1/2/3 early exits beyond about 40 chained
+    integrations as they arise from transport sub-mixes.
+The accuracy clauses (exact solution, path independence) are asserted for CVODE only with the default order 5, -cvode_steps >=
+CVODE_MIN_STEPS = 40, at most ACC_MAX_CHAINED = 2 chained integrations and tol >= CVODE_MIN_REL_TOL = 1e-10 of the largest amount
+(largest ratio seen there: 32; two such ways may differ by twice that: a factor 1.5-2 of head room on the path-independence
+clause), for Runge-Kutta up to RK_MAX_CHAINED = 20 chained integrations.  The K2 trigger classes are excluded BY CONSTRUCTION
+from the accuracy clauses and counted (`excluded_known:*`); ways in those classes are still run and checked for every clause
+that does not involve the tolerance (non-negative amounts, solute balance, KIN_DELTA, time bookkeeping).
 
 Step-list semantics (cxxKinetics::Current_step, manual): with INCREMENTAL_REACTIONS false every entry of an explicit
 `-steps` list is a cumulative time from zero (each step restarts from the initial state); with true the entries are
@@ -56,10 +62,10 @@ RULE = ("Hypothesis-generated KINETICS/RATES problems. Closed-form families: zer
         "fixed value, two-member decay chain (Bateman); k*T in [1e-3,20], -tol 1e-6..1e-12 (not above 5e-4 of the amount that reacts), "
         "formulas of 1-2 neutral salts with coefficients. Each case reaches the same time T in 2-3 ways drawn from {single step, n equal "
         "steps, explicit list <= 20 steps} x {INCREMENTAL_REACTIONS true,false} x {-runge_kutta 1/2/3/6 with -step_divide/-bad_step_max, "
-        "-cvode with -cvode_order 1-5 / -cvode_steps 20-20000 / -bad_step_max} x {batch, ADVECTION 1 cell, TRANSPORT 1 cell with flux or "
+        "-cvode with -cvode_order 1-5 / -cvode_steps 20-20000 (restarts included) / -bad_step_max} x {batch, ADVECTION 1 cell, TRANSPORT 1 cell with flux or "
         "constant boundaries (sub-mixes)}, each way in a fresh instance; the first two ways are always accuracy-bearing (Runge-Kutta, or "
-        "CVODE order 5 without restart, <= 2 chained integrations and tol >= 1e-10 of the largest amount), the third may lie in a "
-        "known-finding class (CVODE order <= 4, -cvode_steps <= 100, > 2 chained integrations (Runge-Kutta: > 20), tol < 1e-10 of the largest amount) where only "
+        "CVODE order 5 with -cvode_steps >= 40, <= 2 chained integrations and tol >= 1e-10 of the largest amount), the third may lie in a "
+        "known-finding class (CVODE order <= 4, -cvode_steps < 40, > 2 chained integrations (Runge-Kutta: > 20), tol < 1e-10 of the largest amount) where only "
         "the tolerance-free clauses are asserted. Library leg: phreeqc.dat RATES "
         "Calcite, Pyrite, Organic_C, K-feldspar, Albite, Quartz in their documented set-ups, same relations without the closed form. "
         "Non-trivial = the reaction moved > 1e-3 of m0, the bound 100*tol is < 10 % of the amount moved, >= 2 accuracy-bearing ways "
@@ -71,13 +77,13 @@ ASSUMPTIONS = ["-tol is an absolute tolerance in moles of reaction per internal 
                "the speciation solver's convergence tolerance (1e-12, set in every input) and rounding add at most 1e-11 of the largest amount",
                "rate laws that read a dissolved amount inherit the run's own solute-balance residual (asserted separately with C02's "
                "tolerance): 4x the largest residual reported by the run is added to the bound for those laws only",
-               "known findings K1 (CVODE restart) and K2 (CVODE global error for order <= 4 / > 2 chained integrations / tol < 1e-10 of the amounts) are excluded by "
+               "known finding K2 (global error beyond 100*tol: CVODE order <= 4 / -cvode_steps < 40 / > 2 chained integrations / tol < 1e-10 of the amounts; Runge-Kutta > 20 chained integrations) is excluded by "
                "construction from the accuracy clauses and re-reported from replays/C12/known",
                "library-rate set-ups stay in the smooth regime of their rate laws (no exhaustion of the electron acceptor / reactant)"]
 TECHNIQUE = "property-based testing (Hypothesis): closed-form reference model + multi-path differential (partition / incremental / integrator / host)"
 LEVEL_TEXT = ("Exploration: about 2 600 (quick) / 88 000 (thorough) generated rate problems per run are integrated 2-3 different "
               "ways each and compared with the exact solution, with each other, with the solute balance and with the time bookkeeping; no "
-              "exhaustive claim. CVODE configurations inside the two known findings are only checked for the tolerance-free clauses.")
+              "exhaustive claim. Configurations inside the K2 known-finding classes are only checked for the tolerance-free clauses.")
 FLOORS = {"quick": 300, "thorough": 3000}
 SHARDS = {"quick": 8, "thorough": 16}
 BUDGET = {"quick": (300, 30), "thorough": (5000, 500), "replay": (1, 1)}   # (closed-form, library) cases per shard
@@ -87,10 +93,11 @@ SALTS = {"NaCl": {"Na": 1, "Cl": 1}, "KBr": {"K": 1, "Br": 1}, "LiCl": {"Li": 1,
 ELS = ["Na", "K", "Li", "Cl", "Br", "N"]
 SOLNAME = {"N": "N(5)"}
 TOLS = [1e-6, 1e-7, 1e-8, 1e-9, 1e-10, 1e-11, 1e-12]
-ACC_MAX_CHAINED = 2          # CVODE (order 5, no restart): accuracy clauses asserted up to this many chained integrations
+ACC_MAX_CHAINED = 2          # CVODE (order 5): accuracy clauses asserted up to this many chained integrations
 RK_MAX_CHAINED = 20          # Runge-Kutta: accuracy clauses asserted up to this many chained integrations (DESIGN: step lists <= 20)
 CVODE_MIN_REL_TOL = 1e-10    # CVODE accuracy clauses only for tol >= this * (largest reactant amount): error/tol grows like tol^(-1/6)
-NO_RESTART_STEPS = 5000      # -cvode_steps >= this never reaches the restart path in the generated domain (probe: order 5 needs <= 1000 steps)
+CVODE_MIN_STEPS = 40         # CVODE accuracy clauses only for -cvode_steps >= this (every restart begins again at order 1; probe: 24 -> 168*tol, 28 -> 52, 30 -> 30)
+CVODE_STEPS_ACC = [40, 50, 70, 100, 100, 200, 500, 5000, 20000]
 
 
 def prepare(tier):
@@ -121,7 +128,7 @@ def acc_way(draw, hosts, cv_ok=True):
     cv = draw(st.integers(0, 4)) >= 3 and cv_ok
     w = {"host": host}
     if cv:
-        w["integ"] = {"type": "cvode", "order": 5, "steps": draw(st.sampled_from([5000, 20000])),
+        w["integ"] = {"type": "cvode", "order": 5, "steps": draw(st.sampled_from(CVODE_STEPS_ACC)),
                       "bad_step_max": draw(st.sampled_from([500, 2000]))}
     else:
         w["integ"] = draw(rk_integ())
@@ -151,7 +158,7 @@ def acc_way(draw, hosts, cv_ok=True):
 
 @st.composite
 def kf_way(draw, hosts, tol, cv_ok=True):
-    """a CVODE way inside a known-finding trigger class (K1 restart, K2 low order / many chained integrations / very tight
+    """a CVODE way inside a known-finding trigger class (K2: restarts at small -cvode_steps, low order / many chained integrations / very tight
     relative tolerance); sizes are kept small because low orders need 1e3..1e5 internal steps at tight tolerances"""
     sub = draw(st.sampled_from(["order", "order", "restart", "accum"] + ([] if cv_ok else ["tight", "tight"])))
     hs = [h for h in hosts if h in ("batch", "advection", "transport_flux")] or ["batch"]
@@ -166,7 +173,7 @@ def kf_way(draw, hosts, tol, cv_ok=True):
             order = max(order, 3)
         w["integ"] = {"type": "cvode", "order": order, "steps": draw(st.sampled_from([100, 5000])), "bad_step_max": 2000}
     elif sub == "restart":
-        steps = 20 if (tol >= 1e-9 and draw(st.booleans())) else 50
+        steps = draw(st.sampled_from([20, 25])) if tol >= 1e-9 else draw(st.sampled_from([25, 30, 35]))
         w["integ"] = {"type": "cvode", "order": draw(st.sampled_from([3, 4, 5, 5])), "steps": steps, "bad_step_max": 2000}
     elif sub == "tight":
         w["integ"] = {"type": "cvode", "order": 5, "steps": draw(st.sampled_from([5000, 20000])), "bad_step_max": 500}
@@ -538,15 +545,15 @@ def way_label(w):
 
 def static_class(w, tol, scale):
     """accuracy class of a way as far as it follows from its construction:
-    'rk' | 'cvodeA' (default order, no restart, tolerance not below CVODE_MIN_REL_TOL of the amounts; chained integrations
-    still to be counted) | 'K2_order' | 'K1_restart' | 'K2_tight_tol'"""
+    'rk' | 'cvodeA' (default order, -cvode_steps >= CVODE_MIN_STEPS, tolerance not below CVODE_MIN_REL_TOL of the amounts; chained integrations
+    still to be counted) | 'K2_order' | 'K2_restart_small_steps' | 'K2_tight_tol'"""
     g = w["integ"]
     if g["type"] == "rk":
         return "rk"
     if g["order"] <= 4:
         return "K2_order"
-    if g["steps"] < NO_RESTART_STEPS:
-        return "K1_restart"
+    if g["steps"] < CVODE_MIN_STEPS:
+        return "K2_restart_small_steps"
     if tol < CVODE_MIN_REL_TOL * scale:
         return "K2_tight_tol"
     return "cvodeA"
@@ -692,6 +699,9 @@ def check_case(case, ctx, probe=None):
         classes.append("host=" + w["host"])
         classes.append("integ=" + (integ_label(w["integ"]) if klass in ("rk", "cvodeA") else "cvode:" + klass))
         classes.append("part=%s/%s" % (w["part"]["type"], "incr" if w["incr"] else "cum"))
+        if klass == "cvodeA":
+            st_ = w["integ"]["steps"]
+            classes.append("cvode_steps=" + ("40-100" if st_ <= 100 else "200-500" if st_ <= 500 else ">=5000"))
         if w["integ"]["type"] == "rk" and w["integ"]["step_divide"] is not None:
             classes.append("step_divide" + (">1" if w["integ"]["step_divide"] > 1 else "<1"))
         classes.append("chained=%s" % ("1" if nch == 1 else "2" if nch == 2 else "3-20" if nch <= 20 else ">20"))
